@@ -56,6 +56,8 @@ Definition table_ok (t doc : list (list byte * N)) (inv : list (N * list byte)) 
   && existsb (fun p => snd p =? dflt) t.
 
 Definition plain_text (v : list byte) : bool := clean v.
+(** bytes that need no care in a configuration file: not whitespace, not a comment or quote character, not NUL *)
+Definition plain_char (b : byte) : bool := negb (is_space b) && negb (memb b [SEMI; HASH; DQ; SQ; NUL]).
 Definition printable (c : config_consts) (v : list byte) : bool := clean v && no_inline c v.
 
 Definition len_ok (c : config_consts) (vmin vmax vdef dmin dmax ddef : N) : bool :=
@@ -64,6 +66,7 @@ Definition len_ok (c : config_consts) (vmin vmax vdef dmin dmax ddef : N) : bool
 
 Definition config_consts_ok (c : config_consts) : bool :=
   ini_flags_ok c && (8 <=? ini_max_line c) && (2 <=? ini_max_section c) && (2 <=? ini_max_name c)
+  && (len SNOOPY <? ini_max_section c) && forallb (fun r => len (row_name r) <? ini_max_name c) (options c)
   && list_eqb (ini_start_comment c) [SEMI; HASH] && list_eqb (ini_inline_comment c) [SEMI]
   && list_eqb (section_name c) SNOOPY
   && forallb (row_ok c) (options c) && nodupb (map row_name (options c))
@@ -76,6 +79,7 @@ Definition config_consts_ok (c : config_consts) : bool :=
   && name_known c (d_output c)
   && table_ok (fac_to_int c) (doc_fac c) (fac_to_str c) (d_facility c)
   && table_ok (lvl_to_int c) (doc_lvl c) (lvl_to_str c) (d_level c)
+  && forallb (fun p => forallb plain_char (fst p)) (fac_to_int c) && forallb (fun p => forallb plain_char (fst p)) (lvl_to_int c)
   && len_saturating c && same_set (suffix_k c) (bytes "kK") && (factor_k c =? 1024)
   && same_set (suffix_m c) (bytes "mM") && (factor_m c =? 1048576)
   && len_ok c (ds_min c) (ds_max c) (ds_def c) (doc_ds_min c) (doc_ds_max c) (doc_ds_def c)
@@ -84,7 +88,7 @@ Definition config_consts_ok (c : config_consts) : bool :=
   && printable c (d_output_arg c)
   && list_eqb (conf_header c) (bytes "; Options from config file (or defaults): ")
   && list_eqb (conf_section c) ([LBR] ++ section_name c ++ [RBR])
-  && list_eqb (conf_assign c) (bytes " = ") && conf_quote c
+  && list_eqb (conf_assign c) (bytes " = ") && conf_quote c && (len (conf_section c) + 1 <=? ini_max_line c - 1)
   && (negb (conf_cont c) || list_eqb (conf_cont_sep c) ([SP; EQB; NL; SP; SP; SP; SP])).
 
 (** exactly one layer removes the optional LOG_ prefix (otherwise LOG_LOG_NAME is read as NAME) *)
